@@ -19,7 +19,7 @@ from scales.sink import ClientMessageSink, ClientMessageSinkStack
 ID = 'C15'
 LEVEL = 'exploration'
 RULE = ('Hypothesis-generated produce calls (topic bytes 1-200, partition any int32, acks any int16, payload lists incl. '
-        'empty list, empty payloads, > 64 kB payloads, arbitrary bytes; positional or keyword arguments), 1-5 concurrent '
+        'empty list, empty payloads, > 64 kB payloads, payloads around and above 1 MB, arbitrary bytes; positional or keyword arguments), 1-5 concurrent '
         'requests on one connection answered in a drawn order, plus one metadata request, through KafkaSerializerSink -> '
         'KafkaTransportSink on the simulated socket; request bytes are parsed by the harness\'s own strict Kafka v0 parser '
         '(sizes, CRC32, header fields, nothing trailing); produce / metadata responses (several topics, partitions, brokers, '
@@ -42,14 +42,20 @@ I16 = st.integers(-2 ** 15, 2 ** 15 - 1)
 ERR = st.one_of(st.sampled_from([0, 0, 0, -1, 1, 2, 3, 4, 5, 6, 7, 8, 9, 10, 11, 12, 14, 15, 16]), I16)
 I32 = st.integers(-2 ** 31, 2 ** 31 - 1)
 I64 = st.integers(-2 ** 63, 2 ** 63 - 1)
-NAME = st.binary(min_size=1, max_size=40).map(lambda b: b.hex())
+# names in responses (topics, broker hosts): any bytes, the empty string included
+NAME = st.one_of(st.binary(min_size=0, max_size=40), st.binary(min_size=0, max_size=40), st.just(b'')).map(lambda b: b.hex())
 
 
 def strategy(tier):
   # big payloads are described compactly (Hypothesis caps the entropy of one example at 8 kB)
-  payload = st.one_of(st.binary(max_size=30).map(lambda b: b.hex()), st.just(''),
-                      st.tuples(st.binary(min_size=1, max_size=8), st.integers(65530, 70000)).map(lambda t: 'rep:%s:%d' % (t[0].hex(), t[1])),
-                      st.tuples(st.binary(min_size=1, max_size=8), st.integers(100, 3000)).map(lambda t: 'rep:%s:%d' % (t[0].hex(), t[1])))
+  from vf.gen import weighted
+  payload = weighted(
+      (5, st.binary(max_size=30).map(lambda b: b.hex())), (5, st.just('')),
+      (5, st.tuples(st.binary(min_size=1, max_size=8), st.integers(65530, 70000)).map(lambda t: 'rep:%s:%d' % (t[0].hex(), t[1]))),
+      (5, st.tuples(st.binary(min_size=1, max_size=8), st.integers(100, 3000)).map(lambda t: 'rep:%s:%d' % (t[0].hex(), t[1]))),
+      # around one megabyte (a broker's usual message.max.bytes) and beyond
+      (1, st.tuples(st.binary(min_size=1, max_size=8), st.sampled_from([999986, 999987, 1000000, 1000001, 1048577, 2100000])).map(
+          lambda t: 'rep:%s:%d' % (t[0].hex(), t[1]))))
   req = st.fixed_dictionaries({
       'payloads': st.one_of(st.lists(payload, max_size=4), st.just([])),
       'acks': st.one_of(I16, st.sampled_from([0, 1, -1])),
